@@ -113,6 +113,8 @@ THEOREMS = {
         "Shroud.WrapC.ctor_round_trip",
         "Shroud.WrapC.c_to_cxx_twice",
         "Shroud.WrapC.table_typemap_pairs",
+        "Shroud.WrapC.table_capsule_recovery_keeps_const",
+        "Shroud.WrapC.c_type_is_cxx_type",
         "Shroud.WrapC.table_tree_entries",
         "Shroud.WrapC.plain_keys_reach_plain_entries_partial",
     ]
@@ -409,8 +411,8 @@ MODE = {"val": "scalar", "ptr": "*", "ref": "&", "pp": "**", "pr": "*&"}
 
 def sig_of(p, tm):
     if p.fam in ("cstrarr", "voidarr"):
-        return (TM_NAME[p.fam], "**")
-    return (tm.get(p.t, p.t) if p.fam in ("native", "class") else TM_NAME[p.fam], MODE[p.mode])
+        return (TM_NAME[p.fam], "**", False)
+    return ((tm.get(p.t, p.t).replace(" ", "_")) if p.fam in ("native", "class") else TM_NAME[p.fam], MODE[p.mode], bool(p.const))
 
 
 def documented_names(spec):
@@ -438,7 +440,7 @@ def documented_names(spec):
 def node_key(cls, node):
     ast = node.ast
     kind = "ctor" if ast.is_ctor() else ("dtor" if ast.is_dtor() else ast.name)
-    sig = tuple((a.typemap.name, a.get_indirect_stmt()) for a in ast.params)
+    sig = tuple((a.typemap.name, a.get_indirect_stmt(), bool(a.const)) for a in ast.params)
     if node._generated == "cxx_template":
         sig += (("result", ast.typemap.name),)
     return (cls.fmtdict.cxx_class if cls is not None else "", kind, sig)
@@ -477,7 +479,7 @@ def check_documented_names(ctx, spec, lib, shapes):
         if got.get(k) != cname:
             ctx.fail("c02:documented-c-name:%s" % sh,
                      "%s%s(%s) must be reachable as %s (position among all overloads of the name, explicit suffix for that member "
-                     "only) but the generated C name is %s" % (k[0] + "::" if k[0] else "", k[1], ", ".join("%s %s" % x for x in k[2]),
+                     "only) but the generated C name is %s" % (k[0] + "::" if k[0] else "", k[1], ", ".join(" ".join(str(y) for y in x) for x in k[2]),
                                                                cname, got.get(k)),
                      {"yaml": spec.yaml(), "function": "%s %s %s" % k, "expected": cname, "actual": got.get(k),
                       "generated_names": sorted(got.values())})
@@ -650,6 +652,10 @@ def run(ctx):
     from tools import extract_cstmts
     xinfo = extract_cstmts.regenerate()
     ctx.note("translator", xinfo[0])
+    if xinfo[0].get("unmapped"):
+        # a template line / conversion pattern the pattern table does not know: written as op 99 (the table theorems fail),
+        # reported as a broken tie; the oracle below searches for the failing input
+        ctx.tie_broken("translator-unmapped-line", xinfo[0]["unmapped"][:6])
     ok = ctx.lean(MODULES, THEOREMS, extra_targets=("drv_wrapc",))
     ctx.cov["trusted_base"] = [
         "Lean 4.33.0 kernel; axioms within {propext, Classical.choice, Quot.sound}",
@@ -669,7 +675,11 @@ def run(ctx):
         "argument kinds listed under not_modelled are outside the proved statement (`_partial`)",
         "an enum's underlying type has the size of int (the C API declares enums as int; pointers to enums are converted as pointers)",
     ]
-    run_tie(ctx, ok, thorough, xinfo)
+    try:
+        run_tie(ctx, ok, thorough, xinfo)
+    except Exception as e:   # a changed tree must not take the harness down: broken tie, then the oracle searches
+        import traceback
+        ctx.tie_broken("correspondence-harness-exception", traceback.format_exc()[-1500:])
     from tools import c02_oracle
     c02_oracle.run(ctx, thorough)
 
